@@ -192,6 +192,10 @@ UpdateOKAnyReport(p) ==
     /\ obs' = [k |-> "updated"]
     /\ UNCHANGED <<classes, methods, defs, handler, vps, dead>>
 
+(* dispatch data encoded by update elsewhere from the same catalogs, installed by the decoder (decode.hpp): the same  *)
+(* effect as a successful update of the current catalogs; there is no report                                         *)
+InstallEncoded(p) == UpdateOKAnyReport(p)
+
 (***************************************************************************)
 (* Calls.  Legal only after a successful update with no catalog change      *)
 (* since, with every dynamic class acceptable at its position.             *)
